@@ -7,10 +7,12 @@
  *   every caller takes exactly one arrival number; the caller with a % count == 0 — and only it — is told SERIAL;
  *   the serial fiber never parks and issues exactly count-1 grants on the barrier's wait list, once;
  *   a non-serial fiber parks exactly once and returns (0) only after count fibers entered this round: n >= R.
- *   The last clause rests on the park contract "the grant I consumed was issued by the serial fiber of MY round"
+ *   consecutive rounds use alternate wait lists: an arrival of round r (r = (a-1)/count) parks on / wakes from waiters[r & 1] only.
+ *   The last clause of the statement rests on the park contract "the grant I consumed was issued by the serial fiber of MY round"
  *   (then that fiber's arrival number is R, so n >= R, and n never decreases).  That contract is justified by the
- *   protocol lemma in lemmas.c (a round-k serial pops only round-k entries) — which holds only when no released fiber
- *   re-enters while the serial fiber is still popping (restricted twin); the unrestricted lemma fails: finding D4.
+ *   protocol lemma in lemmas.c: a round-k serial fiber pops only round-k entries, because round-k+1 entries are on the other list and
+ *   no round-k+2 entry can exist before the round-k serial fiber itself has arrived in round k+1 (count participants).
+ *   (History: with a single list the lemma failed — finding D4, fixed in /repo; findings/D4_barrier_reuse.c.)
  */
 #include "verif_rt.h"
 #include "fiber_barrier.h"
@@ -64,13 +66,20 @@ static int POST_wait(int ret) {
   if (G.serial == 1) return ret == FIBER_BARRIER_SERIAL_FIBER && G.parks == 0 && G.wakes == 1;
   return G.serial == 0 && ret == 0 && G.parks == 1 && G.wakes == 0 && CUR_N >= G.R; /* nobody passes before all count arrived */
 }
-static int PRE_park(fiber_manager_t* m, mpsc_fifo_t* q) { return m == &VM0 && q == &B.waiters && G.arrived == 1 && G.serial == -1 && G.parks == 0 && G.wakes == 0; }
+/* the list of my round: concrete-count groups check the parity (division by a constant); the count-generic group checks that it is one of
+   the barrier's two lists (a second symbolic 64-bit division is beyond every SAT back end here, like the modulo) */
+#ifdef BCOUNT
+#define MYLIST(q) ((q) == &B.waiters[((G.a - 1) / BCOUNT) & 1])
+#else
+#define MYLIST(q) ((q) == &B.waiters[0] || (q) == &B.waiters[1])
+#endif
+static int PRE_park(fiber_manager_t* m, mpsc_fifo_t* q) { return m == &VM0 && MYLIST(q) && G.arrived == 1 && G.serial == -1 && G.parks == 0 && G.wakes == 0; }
 static int POST_park(ghost_t o) {
   return G.arrived == o.arrived && G.serial == 0 && G.a == o.a && G.R == o.R && G.wakes == o.wakes && G.parks == o.parks + 1 &&
          G.lastn == CUR_N && CUR_N >= G.R /* the grant came from my round's serial fiber, whose arrival number is R */;
 }
 static int PRE_wake(fiber_manager_t* m, mpsc_fifo_t* q, int count) {
-  return m == &VM0 && q == &B.waiters && G.arrived == 1 && G.serial == -1 && G.wakes == 0 && G.parks == 0 && (int64_t)count == (int64_t)B.count - 1;
+  return m == &VM0 && MYLIST(q) && G.arrived == 1 && G.serial == -1 && G.wakes == 0 && G.parks == 0 && (int64_t)count == (int64_t)B.count - 1;
 }
 static int POST_wake(ghost_t o, int count, int ret) {
   return (count == 0 ? (ret == 0 || ret == 1) : ret == count) && G.arrived == o.arrived && G.serial == 1 && G.a == o.a && G.R == o.R &&
@@ -88,11 +97,11 @@ int fiber_manager_wake_from_mpsc_queue(fiber_manager_t* manager, mpsc_fifo_t* fi
 #else
 fiber_manager_t* fiber_manager_get(void) { return &VM0; }
 void fiber_manager_wait_in_mpsc_queue(fiber_manager_t* manager, mpsc_fifo_t* fifo) {
-  VASSERT(PRE_park(manager, fifo), "C: only a non-serial arrival parks, once, on the barrier's list");
+  VASSERT(PRE_park(manager, fifo), "C: only a non-serial arrival parks, once, on the wait list of its own round");
   ghost_t o = G; G.parks += 1; G.serial = 0; havoc_env(); spec_snap(); VASSUME(POST_park(o));
 }
 int fiber_manager_wake_from_mpsc_queue(fiber_manager_t* manager, mpsc_fifo_t* fifo, int count) {
-  VASSERT(PRE_wake(manager, fifo, count), "C: only the serial arrival wakes, once, exactly count-1 waiters");
+  VASSERT(PRE_wake(manager, fifo, count), "C: only the serial arrival wakes, once, exactly count-1 waiters, from the wait list of its own round");
   ghost_t o = G; G.wakes += 1; G.serial = 1; havoc_env(); spec_snap(); int ret = count ? count : verif_bool(); VASSUME(POST_wake(o, count, ret));
   return ret;
 }
